@@ -651,7 +651,7 @@ def check(rep: Report, tier: str, seed: int) -> None:
     probe_tag_suffix(rep)
     e2e_search(rep, rng, 3 if quick else 30, 3 if quick else 4)
     extra.merge()
-    if rep.broken and not rep.failing:
+    if rep.broken and not rep.unknown_failing():
         search(rep, seed, 400 if quick else 5000)
 
 
@@ -745,7 +745,7 @@ def search(rep: Report, seed: int, n: int) -> None:
     sub = Report(rep.prop, rep.tier, rep.seed)
     results_correspondence(sub, rng, n)
     rep.failing += sub.failing
-    if not rep.failing:
+    if not rep.unknown_failing():
         e2e_search(rep, rng, max(4, n // 100), 4)
     rep.extra["search_cases"] = n
 
